@@ -92,15 +92,15 @@ Lemma keeps_both : forall (s0 s1 : pstate), p_creds s1 = p_creds s0 ->
   (p_creds s0 = root_creds -> p_creds s1 = root_creds) /\ (ids_root (p_creds s0) -> ids_root (p_creds s1)).
 Proof. intros s0 s1 H. rewrite H. auto. Qed.
 
-Lemma create_then_lookup_creds : forall cf fi s uid gid parent n call rp io s',
-  create_then_lookup cf fi s uid gid parent n call = (rp, io, s') -> p_creds s = root_creds -> p_creds s' = root_creds.
+Lemma create_then_lookup_creds : forall s uid gid parent n call rp io s',
+  create_then_lookup s uid gid parent n call = (rp, io, s') -> p_creds s = root_creds -> p_creds s' = root_creds.
 Proof.
-  intros cf fi s uid gid parent n call rp io s' H Hc. unfold create_then_lookup in H.
+  intros s uid gid parent n call rp io s' H Hc. unfold create_then_lookup in H.
   destruct (assoc parent (p_inodes s)) as [d|]; [|inversion H; subst; exact Hc].
   match type of H with context [with_creds uid gid s ?b] => destruct (with_creds uid gid s b) as [r s1] eqn:Hw end.
   assert (H1 : p_creds s1 = root_creds).
   { refine (proj1 (with_creds_root _ _ _ _ _ _ _ _ Hw) Hc).
-    intros s0 r0 s2 Hb. destruct (c_ifh cf && fi && negb (euid (p_creds s0) =? 0)); [inversion Hb; subst; reflexivity|].
+    intros s0 r0 s2 Hb.
     destruct (call (p_creds s0) (p_host s0) (id_host d)) as [r1 h']. inversion Hb; subst. reflexivity. }
   destruct r; [|inversion H; subst; exact H1].
   rewrite (entry_reply_creds _ _ _ _ _ _ H). exact H1.
@@ -163,12 +163,12 @@ Proof.
     destruct (do_getattr cf s3 inode handle); inv4 H; exact C3.
   - (* mkdir *)
     destruct (validate cf n); [inv4 H; exact Hc|].
-    match type of H with context [create_then_lookup ?a0 ?b0 ?a ?b ?c ?d ?e ?f] => destruct (create_then_lookup a0 b0 a b c d e f) as [[rp0 io0] s0] eqn:Hx end.
-    inv4 H. apply (create_then_lookup_creds _ _ _ _ _ _ _ _ _ _ _ Hx Hc).
+    match type of H with context [create_then_lookup ?a ?b ?c ?d ?e ?f] => destruct (create_then_lookup a b c d e f) as [[rp0 io0] s0] eqn:Hx end.
+    inv4 H. apply (create_then_lookup_creds _ _ _ _ _ _ _ _ _ Hx Hc).
   - (* mknod *)
     destruct (validate cf n); [inv4 H; exact Hc|].
-    match type of H with context [create_then_lookup ?a0 ?b0 ?a ?b ?c ?d ?e ?f] => destruct (create_then_lookup a0 b0 a b c d e f) as [[rp0 io0] s0] eqn:Hx end.
-    inv4 H. apply (create_then_lookup_creds _ _ _ _ _ _ _ _ _ _ _ Hx Hc).
+    match type of H with context [create_then_lookup ?a ?b ?c ?d ?e ?f] => destruct (create_then_lookup a b c d e f) as [[rp0 io0] s0] eqn:Hx end.
+    inv4 H. apply (create_then_lookup_creds _ _ _ _ _ _ _ _ _ Hx Hc).
   - (* create *)
     destruct (validate cf n); [inv4 H; exact Hc|].
     destruct (assoc parent (p_inodes s)) as [d|]; [|inv4 H; exact Hc].
@@ -186,14 +186,14 @@ Proof.
     { destruct newf as [i0|]; [inversion H3; subst; exact C2|].
       refine (with_killpriv_root _ _ _ _ _ _ _ H3 C2). intros s0 r0 s4 Hb.
       refine (with_creds_root _ _ _ _ _ _ _ _ Hb). intros s5 r5 s6 Hb5. apply (open_inode_creds _ _ _ _ _ _ Hb5). }
-    destruct rf as [[hi fl]|e]; [|inv4 H; exact C3].
+    destruct rf as [[hi fl]|e]; [|inv4 H; rewrite forget_one_creds; exact C3].
     destruct (c_no_open cf); [inv4 H; exact C3|].
     destruct (insert_handle s3 (new_hdata f hi fl flags)) as [hk s4] eqn:Hi. inv4 H.
     rewrite (insert_handle_creds _ _ _ _ Hi). exact C3.
   - (* symlink *)
     destruct (validate cf n); [inv4 H; exact Hc|].
-    match type of H with context [create_then_lookup ?a0 ?b0 ?a ?b ?c ?d ?e ?f] => destruct (create_then_lookup a0 b0 a b c d e f) as [[rp0 io0] s0] eqn:Hx end.
-    inv4 H. apply (create_then_lookup_creds _ _ _ _ _ _ _ _ _ _ _ Hx Hc).
+    match type of H with context [create_then_lookup ?a ?b ?c ?d ?e ?f] => destruct (create_then_lookup a b c d e f) as [[rp0 io0] s0] eqn:Hx end.
+    inv4 H. apply (create_then_lookup_creds _ _ _ _ _ _ _ _ _ Hx Hc).
   - (* link *)
     destruct (validate cf n); [inv4 H; exact Hc|].
     destruct (assoc inode (p_inodes s)); [|inv4 H; exact Hc].
